@@ -51,3 +51,172 @@ Print Assumptions c09_offset_shift.
 Print Assumptions c09_offset_antisym.
 Print Assumptions c09_outside_tol_refuted.
 Print Assumptions c09_offset_full_range.
+
+(* ------------------------------------------------------------------------------------------------
+   C09 — the trace-shift clause on the connection model (Conn/C09_Shift.v, Conn/C09_ShiftProofs*.v).
+   da / db / dc relabel our sequence numbers / the peer's / the connection id we send with.
+   The guard `c09_guard_vstep` (and `c09_guard_trace` along a scenario) is a boolean function of the
+   state and the event: it follows the step and requires, wherever two sequence numbers are compared
+   with the wrap-tolerant order, that both are u16 values at true modular distance <= WRAP_TOLERANCE
+   (`cmp_ok`), and wherever two are tested for equality that both are u16 values. *)
+From Utp Require Import Wire.Header Rtt.Rtte Mtu.SegSizes Rx.Rx Tx.Ring Tx.Segments Conn.Recovery Conn.Msg
+  Conn.VSockRec Conn.VSock Conn.VSockRun Conn.VObs Conn.VSock_Inv Conn.C09_Pred Conn.C09_Shift
+  Conn.C09_ShiftProofsSeq Conn.C09_ShiftProofsSeg Conn.C09_ShiftProofsRec Conn.C09_ShiftProofsTx
+  Conn.C09_ShiftProofsIn Conn.C09_ShiftProofsPoll Conn.C09_ShiftProofsGuard Conn.C09_ShiftProofsEx.
+
+(* layer 0: the comparison *)
+Theorem c09_seq_sub_shift : forall d a b, cmp_ok a b = true ->
+  seq_sub (sh16 d a) (sh16 d b) = seq_sub a b.
+Proof. exact cmp_ok_seq_sub. Qed.
+
+Theorem c09_seq_sub_shift_tight : forall a b,
+  u16_ok a = true -> u16_ok b = true -> near WRAP_TOLERANCE a b = false ->
+  exists d, seq_sub (sh16 d a) (sh16 d b) <> seq_sub a b.
+Proof. exact seq_sub_shift_tight. Qed.
+
+(* layer 1: Segments and Recovery *)
+Theorem c09_remove_up_to_ack_shift : forall d t now ack sk, g_remove_up_to_ack t ack sk = true ->
+  remove_up_to_ack (shift_segments d t) now (sh16 d ack) sk =
+  (shift_segments d (fst (remove_up_to_ack t now ack sk)), snd (remove_up_to_ack t now ack sk)).
+Proof. exact remove_up_to_ack_shift. Qed.
+
+Theorem c09_calc_flight_size_shift : forall d t ls, g_calc_flight_size t ls = true ->
+  calc_flight_size (shift_segments d t) (sh16 d ls) = calc_flight_size t ls.
+Proof. exact calc_flight_size_shift. Qed.
+
+Theorem c09_iter_for_sending_shift : forall d t st, g_iter_for_sending t st = true ->
+  iter_for_sending (shift_segments d t) (shift_start d st) = map (shift_fs d) (iter_for_sending t st).
+Proof. exact iter_for_sending_shift. Qed.
+
+Theorem c09_calc_pipe_shift : forall d t hr hd rtt now, g_calc_pipe t hr hd = true ->
+  calc_pipe (shift_segments d t) (sh16 d hr) (sh16 d hd) rtt now =
+  shift_pipe_res d (calc_pipe t hr hd rtt now).
+Proof. exact calc_pipe_shift. Qed.
+
+Theorem c09_recovery_on_ack_shift :
+  forall (CC : Type) (cci : cc_iface CC) (da db : Z) r h segs ls (cc : CC) now rtt,
+  g_recovery_on_ack r h segs ls = true ->
+  recovery_on_ack cci (shift_recovery da r) (shift_in_hdr da db h) (shift_segments da segs) (sh16 da ls)
+                  cc now rtt =
+  shift_rec_res da (recovery_on_ack cci r h segs ls cc now rtt).
+Proof. exact (@recovery_on_ack_shift). Qed.
+
+(* layer 2: the functions of VirtualSocket *)
+Theorem c09_state_table_shift : forall (da db dc : Z) (CC : Type) (s : vsock CC) h,
+  g_state_table s h = true ->
+  state_table (shift_vsock da db dc s) (shift_in_hdr da db h) = shift_table_res da db dc (state_table s h).
+Proof. exact (@state_table_shift). Qed.
+
+Theorem c09_process_incoming_message_shift :
+  forall (da db dc : Z) (CC : Type) (cci : cc_iface CC) (s : vsock CC) m, g_pim s m = true ->
+  process_incoming_message cci (shift_vsock da db dc s) (shift_msg da db m) =
+  shift_step da db dc idf (process_incoming_message cci s m).
+Proof. exact (@pim_shift). Qed.
+
+Theorem c09_process_all_incoming_messages_shift :
+  forall (da db dc : Z) (CC : Type) (cci : cc_iface CC) (s : vsock CC), g_process_all cci s = true ->
+  process_all_incoming_messages cci (shift_vsock da db dc s) =
+  shift_step da db dc idf (process_all_incoming_messages cci s).
+Proof. exact (@process_all_shift). Qed.
+
+Theorem c09_send_tx_queue_shift :
+  forall (da db dc : Z) (CC : Type) (cci : cc_iface CC) (s : vsock CC), g_send_tx_queue cci s = true ->
+  send_tx_queue cci (shift_vsock da db dc s) = shift_step da db dc idf (send_tx_queue cci s).
+Proof. exact (@send_tx_queue_shift). Qed.
+
+Theorem c09_split_tx_queue_shift :
+  forall (da db dc : Z) (CC : Type) (cci : cc_iface CC) (s : vsock CC), g_split cci s = true ->
+  split_tx_queue_into_segments cci (shift_vsock da db dc s) =
+  shift_step da db dc idf (split_tx_queue_into_segments cci s).
+Proof. exact (@split_shift). Qed.
+
+Theorem c09_poll_shift :
+  forall (da db dc : Z) (CC : Type) (cci : cc_iface CC) (s : vsock CC), g_poll cci s = true ->
+  poll cci (shift_vsock da db dc s) = (shift_vsock da db dc (fst (poll cci s)), snd (poll cci s)).
+Proof. exact (@poll_shift). Qed.
+
+(* the clause: one step of the relabelled run is the relabelled step, for every state and event *)
+Theorem c09_vstep_shift :
+  forall (da db dc : Z) (CC : Type) (cci : cc_iface CC) (s : vsock CC) (o : vop),
+  c09_guard_vstep cci s o = true ->
+  vstep cci (shift_vsock da db dc s) (shift_op da db o) = shift_vres da db dc (vstep cci s o).
+Proof. exact (@vstep_shift). Qed.
+
+(* ... and the trace of the relabelled run is the relabelled trace, for every scenario *)
+Theorem c09_ftrace_shift :
+  forall (da db dc : Z) (CC : Type) (cci : cc_iface CC) (ops : list vop) (s : vsock CC),
+  c09_guard_trace cci s ops = true ->
+  ftrace cci (shift_vsock da db dc s) (map (shift_op da db) ops) =
+  map (shift_fstep da db dc) (ftrace cci s ops).
+Proof. exact (@ftrace_shift). Qed.
+
+(* hence the extracted predicate of the metamorphic check holds of the two model traces *)
+Theorem c09_model_trace_shift_ok :
+  forall (da db dc : Z) (CC : Type) (cci : cc_iface CC) (s : vsock CC) (ops : list vop),
+  c09_guard_trace cci s ops = true ->
+  c09_shift_ok da db dc (ftrace cci s ops)
+               (ftrace cci (shift_vsock da db dc s) (map (shift_op da db) ops)) = true.
+Proof. exact (@model_trace_shift_ok). Qed.
+
+(* the relabelled run starts from the relabelled construction parameters *)
+Theorem c09_vsock_new_shift :
+  forall (da db dc : Z) (CC : Type) (cci : cc_iface CC) (mk_cc : Z -> Z -> CC) (c : vconfig),
+  vsock_new cci mk_cc (shift_config da db dc c) =
+  match vsock_new cci mk_cc c with Some s => Some (shift_vsock da db dc s) | None => None end.
+Proof. exact (@vsock_new_shift). Qed.
+
+Theorem c09_model_runs_shift_ok :
+  forall (da db dc : Z) (CC : Type) (cci : cc_iface CC) (mk_cc : Z -> Z -> CC) (c : vconfig)
+         (ops : list vop) (s : vsock CC),
+  vsock_new cci mk_cc c = Some s -> c09_guard_trace cci s ops = true ->
+  exists s2, vsock_new cci mk_cc (shift_config da db dc c) = Some s2 /\
+             c09_shift_ok da db dc (ftrace cci s ops) (ftrace cci s2 (map (shift_op da db) ops)) = true.
+Proof. exact (@model_runs_shift_ok). Qed.
+
+(* the guard does not depend on the labelling: the relabelled scenario is inside it as well *)
+Theorem c09_guard_trace_shift :
+  forall (da db dc : Z) (CC : Type) (cci : cc_iface CC) (ops : list vop) (s : vsock CC),
+  c09_guard_trace cci s ops = true ->
+  c09_guard_trace cci (shift_vsock da db dc s) (map (shift_op da db) ops) = true.
+Proof. exact (@guard_trace_shift). Qed.
+
+(* the fingerprint-level guard of the metamorphic check judges a trace and its relabelling alike *)
+Theorem c09_within_tol_shift : forall (da db dc tol : Z) (tr : list fstep),
+  c09_within_tol tol (map (shift_fstep da db dc) tr) = c09_within_tol tol tr.
+Proof. exact c09_within_tol_shift. Qed.
+
+(* the guard is satisfiable: a scenario whose numbers wrap inside the transfer, with a timeout, a
+   fast recovery and both FINs *)
+Theorem c09_guard_satisfiable : ex_guard ex_ops = true /\ ex_reaches ex_ops = true.
+Proof. exact guard_satisfiable. Qed.
+
+(* outside the guard the clause is false of the model (class D4) *)
+Theorem c09_shift_outside_guard_refuted :
+  exists (s : vsock unit) (o : vop) (da db dc : Z),
+    c09_guard_vstep (fixed_cc 100000) s o = false /\
+    vstep (fixed_cc 100000) (shift_vsock da db dc s) (shift_op da db o) <>
+    shift_vres da db dc (vstep (fixed_cc 100000) s o).
+Proof. exact shift_outside_guard_refuted. Qed.
+
+Print Assumptions c09_seq_sub_shift.
+Print Assumptions c09_seq_sub_shift_tight.
+Print Assumptions c09_remove_up_to_ack_shift.
+Print Assumptions c09_calc_flight_size_shift.
+Print Assumptions c09_iter_for_sending_shift.
+Print Assumptions c09_calc_pipe_shift.
+Print Assumptions c09_recovery_on_ack_shift.
+Print Assumptions c09_state_table_shift.
+Print Assumptions c09_process_incoming_message_shift.
+Print Assumptions c09_process_all_incoming_messages_shift.
+Print Assumptions c09_send_tx_queue_shift.
+Print Assumptions c09_split_tx_queue_shift.
+Print Assumptions c09_poll_shift.
+Print Assumptions c09_vstep_shift.
+Print Assumptions c09_ftrace_shift.
+Print Assumptions c09_model_trace_shift_ok.
+Print Assumptions c09_vsock_new_shift.
+Print Assumptions c09_model_runs_shift_ok.
+Print Assumptions c09_guard_trace_shift.
+Print Assumptions c09_within_tol_shift.
+Print Assumptions c09_guard_satisfiable.
+Print Assumptions c09_shift_outside_guard_refuted.
